@@ -584,3 +584,16 @@ Proof.
     + left. reflexivity.
     + intros Hneg. apply Z.ltb_lt in Hneg. rewrite app_nil_r, undigits_digits. lia.
 Qed.
+
+(* a number against a text that reads as a number: "=" holds exactly when the text is the canonical rendering of a
+   numerically equal number (so 1 = "1" but not 1 = "1.0": a text operand is compared as written) *)
+Lemma equal_num_text_spec : forall a s d, parse_number s = Some d ->
+  (equal_num_text a s = true <-> s = render d /\ dec_eq a d).
+Proof.
+  intros a s d Hp. unfold equal_num_text. rewrite text_eqb_eq. split.
+  - intros E. subst s. unfold parse_number in Hp.
+    destruct (parse_number_with_render in_int32 a) as (e & _ & a' & Ha & _ & Pa). rewrite Pa in Hp.
+    destruct (in_int32 e); [|discriminate]. inversion Hp; subst d.
+    split; [apply render_canonical; apply dec_eq_sym; exact Ha|apply dec_eq_sym; exact Ha].
+  - intros [E Hd]. subst s. apply render_canonical. exact Hd.
+Qed.
